@@ -106,6 +106,10 @@ func writeStable(sb *strings.Builder, v reflect.Value, depth int) {
 	}
 	// Values that know how to print themselves do so, as with %v
 	if v.CanInterface() {
+		if isNilPointer(v.Interface()) { // an interface holding a nil pointer
+			sb.WriteString("<nil>")
+			return
+		}
 		switch x := v.Interface().(type) {
 		case error:
 			sb.WriteString(x.Error())
